@@ -13,6 +13,8 @@ CHECKS = {
 
  "C02": ("translation_validation", "symbolic frames from abstract interpretation compared with a reference byte layout; role/provenance check per hole; who-may-store sweep",
          "Translation validation: for every operation the symbolic command frame (all argument values at once) is compared byte-for-byte with spec/wire_frames.json, every hole is traced to the same-named argument through its encoder's normal form and guard (timer 60*minutes LE32, auto-off [3600,86340], name UTF-8 padded to 32, position two hex digits, day mask, start/end), rejections are shown to raise before the command frame is written. Float arithmetic inside timedelta handling and the op-code values themselves (no independent oracle) are not decided.", "§4 C02"),
+ "C03": ("proof", "path enumeration of every operation's I/O event trace by abstract interpretation; provenance of session/timestamp holes; write-effect sweep for shared state",
+         "Proof over all control-flow paths of the 12 operations (helpers inlined): login frame first and exactly once, request/response alternation, session = bytes 8..12 of this invocation's login reply, timestamp = this invocation's single clock occurrence, login flavour per protocol type, fixed frame sequences (2 frames; 2..4 for thermostat control). Absence of any state shared between operations or instances is shown by an exhaustive write-effect sweep (attribute stores, globals, caches, mutable defaults). Two coroutines on one instance and device-side pairing are not decided.", "§4 C03"),
 }
 CHECKS.update(_MORE) if False else None
 NOT_YET = {}
